@@ -357,16 +357,14 @@ class Reader:
                 ins = ir.Binop(a, op, b, name, ty)
             elif a == "phi":
                 ins = ir.Phi(name, ty)
-                b1 = self.parse_block_ref()
-                self.consume(":")
-                v1 = self.parse_value_ref(ty=ty)
-                ins.set_incoming(b1, v1)
-                while self.peek == ",":
-                    self.consume(",")
+                while self.peek == "ID":
                     b1 = self.parse_block_ref()
                     self.consume(":")
                     v1 = self.parse_value_ref(ty=ty)
                     ins.set_incoming(b1, v1)
+                    if self.peek != ",":
+                        break
+                    self.consume(",")
             elif a == "alloc":
                 size = self.parse_integer()
                 self.consume_keyword("bytes")
